@@ -8,6 +8,7 @@ import SJ.Proofs.GoApi
 import SJ.Proofs.GoFind
 import SJ.Proofs.GoFindElem
 import SJ.Proofs.GoArrStr
+import SJ.Proofs.GoElems
 /-
 C12 — Lookup, filtered iteration and bulk accessors agree with plain traversal.
 -/
@@ -249,5 +250,59 @@ theorem C12_string_accessors_follow_source (pj : PJ) (hb : BufOK pj) (v : View) 
     StrTie pj (runFun goFuns goArray_AsStringCvt F ⟨arrStore pj v extra, pj.tape⟩)
       (asStringCvt pj v.iter #[] (fuelOf pj)) :=
   SJ.GoArrStr.go_arrstr_source_tie pj hb v hl extra F hF
+
+open SJ.GoSem SJ.Generated SJ.GoIter SJ.GoObject SJ.GoElems in
+/-- **Source tie** (DESIGN §6.3). `Object.Parse` and `Elements.MarshalJSONBuffer` (`parsed_object.go`) are printed from
+    /repo as syntax trees on every run (an `Elements` value as parallel lists, its `Index` map as an insertion-ordered
+    association with Go's update law; the nil test of the destination pinned by its source text). Their meaning under
+    `GoSem.exec` is the model's `View.parse` and `View.elemsMarshal`: `Parse` leaves exactly the model's elements (name,
+    type, iterator each) and an index in which every name maps to its LAST position (`index_lookup`: what
+    `Elements.Lookup` returns) — whatever the destination held before (nothing of it survives), for a nil or a recycled
+    destination; the marshaller returns `dst ++ text` exactly when the model returns `text`, an error exactly when it
+    errs, and leaves the receiver (passed by value) untouched. `cur < 2^63` as for `Iter.MarshalJSONBuffer` (every
+    iterator `Parse` stores has a 56-bit `cur`: `parse_facts`). -/
+theorem C12_elements_follow_source (pj : PJ) (hb : BufOK pj) (v : View) (hl : v.lim ≤ pj.tape.size) (mf F : Nat)
+    (hm : v.lim - v.off + 2 ≤ mf) (hF : v.lim - v.off + 5 ≤ F) :
+    -- (1)
+    (∀ (es : Array View.Elem) (k : Bytes),
+      (assocGet (indexOf es) k = none ↔ ∀ x ∈ es, x.name ≠ k) ∧
+      (∀ x, assocGet (indexOf es) k = some x → ∃ p : Nat, x = (p : Int)) ∧
+      ∀ p : Nat, assocGet (indexOf es) k = some (p : Int) ↔
+        ∃ h : p < es.size, es[p].name = k ∧ ∀ q (hq : q < es.size), p < q → es[q].name ≠ k) ∧
+    -- (2)
+    (∀ (b : Bool) (old : List Bytes × Bytes × List Int × List Bytes × List Int),
+      (∀ es, View.parse pj v #[] mf = .ok es ↔
+        ∃ s, runFun goFuns goObject_Parse F ⟨parseEnv pj v b old, pj.tape⟩ = .ret s [.bool true, .bool false] ∧
+          s.tape = pj.tape ∧ viewAt s.env "o" = some (parseEnd pj v mf) ∧
+          s.env.get "dst==nil" = some (.bool false) ∧ DstIs s.env es) ∧
+      ((∃ er, View.parse pj v #[] mf = .error er) ↔
+        ∃ s, runFun goFuns goObject_Parse F ⟨parseEnv pj v b old, pj.tape⟩ = .ret s [.bool true, .bool true] ∧
+          s.tape = pj.tape) ∧
+      View.parse pj v #[] mf ≠ .panic ∧ View.parse pj v #[] mf ≠ .diverge ∧
+      runFun goFuns goObject_Parse F ⟨parseEnv pj v b old, pj.tape⟩ ≠ .panic ∧
+      runFun goFuns goObject_Parse F ⟨parseEnv pj v b old, pj.tape⟩ ≠ .diverge ∧
+      (∀ w, runFun goFuns goObject_Parse F ⟨parseEnv pj v b old, pj.tape⟩ ≠ .stuck w)) ∧
+    -- (3)
+    (∀ es, View.parse pj v #[] mf = .ok es →
+      ∀ x ∈ es, x.iter.lim ≤ pj.tape.size ∧ 0 ≤ x.iter.addNext ∧ x.iter.cur.toNat < 2^56) ∧
+    -- (4)
+    (∀ (es : Array View.Elem), (∀ x ∈ es, x.iter.lim ≤ pj.tape.size ∧ x.iter.cur.toNat < 2^63) →
+      View.elemsMarshal pj es ≠ .diverge →
+      ∀ (idx : List Bytes × List Int) (dst : Bytes) (G : Nat), elemsFuel pj es ≤ G →
+      (∀ out, View.elemsMarshal pj es = .ok out ↔
+        ∃ s, runFun goFuns goElements_MarshalJSONBuffer G ⟨elemsEnv pj es idx dst, pj.tape⟩ =
+            .ret s [.bytes (dst ++ out), .bool false] ∧ s.tape = pj.tape ∧
+          ∀ key ∈ eVars, s.env.get key = (elemsEnv pj es idx dst).get key) ∧
+      ((∃ er, View.elemsMarshal pj es = .error er) ↔
+        ∃ s, runFun goFuns goElements_MarshalJSONBuffer G ⟨elemsEnv pj es idx dst, pj.tape⟩ =
+            .ret s [.bytes #[], .bool true] ∧ ∀ key ∈ eVars, s.env.get key = (elemsEnv pj es idx dst).get key) ∧
+      (View.elemsMarshal pj es = .panic ↔
+        runFun goFuns goElements_MarshalJSONBuffer G ⟨elemsEnv pj es idx dst, pj.tape⟩ = .panic) ∧
+      runFun goFuns goElements_MarshalJSONBuffer G ⟨elemsEnv pj es idx dst, pj.tape⟩ ≠ .diverge ∧
+      (∀ w, runFun goFuns goElements_MarshalJSONBuffer G ⟨elemsEnv pj es idx dst, pj.tape⟩ ≠ .stuck w)) ∧
+    -- (5)
+    (∀ (es : Array View.Elem), (∀ x ∈ es, x.iter.lim ≤ pj.tape.size ∧ 0 ≤ x.iter.addNext) →
+      View.elemsMarshal pj es ≠ .panic ∧ View.elemsMarshal pj es ≠ .diverge) :=
+  SJ.GoElems.go_elems_source_tie pj hb v hl mf F hm hF
 
 end SJ.Properties.C12
